@@ -249,13 +249,13 @@ fn call(f: Func, args: &[Node], at: f64) -> R {
                     let sa: f64 = vs.iter().map(|v| v.abs()).sum();
                     let n = vs.len() as f64;
                     if !s.is_finite() || !sa.is_finite() {
-                        // only the sum overflows: the mean of the scaled terms, to 1e-15 of the mean magnitude
-                        let m: f64 = vs.iter().map(|v| v / n).sum();
-                        let ma: f64 = vs.iter().map(|v| (v / n).abs()).sum();
-                        if vs.iter().all(|v| v.is_finite()) && m.is_finite() && ma.is_finite() {
-                            return RV::Val(m, if all_exact { Q::Tol(ma * 1e-14) } else { Q::Skip });
+                        if !vs.iter().all(|v| v.is_finite()) {
+                            return RV::Unspec("U3: non-finite operand inside avg");
                         }
-                        return RV::Unspec("U3: non-finite operand or mean inside avg");
+                        // only the sum overflows; the mean of finite doubles lies between the smallest and the largest of
+                        // them, so it always has a finite value
+                        let (m, ma) = crate::rv::mean_scaled(&vs);
+                        return RV::Val(m, if all_exact { Q::Tol(ma * 1e-14) } else { Q::Skip });
                     }
                     let v = s / n;
                     RV::Val(
